@@ -754,6 +754,8 @@ def transparent_args(callee):
         return [0]
     if callee.startswith("std::fmt::Arguments::<'a>::new") or callee.startswith("core::fmt::rt::Argument::<'_>::new_"):
         return "all"
+    if re.match(r"^std::io::(BufWriter|LineWriter)::<W>::(new|with_capacity)$", callee):
+        return [len(callee) and (1 if callee.endswith("with_capacity") else 0)]   # the wrapped writer
     return None
 
 
